@@ -53,7 +53,7 @@ CFG = {
                   "boolean expression evaluated = the model's expression, for all values), the five repair facts read off the "
                   "skeleton in Lean; and by the public-API correspondence (0 mismatches allowed).",
     "assumptions": [
-        "Dynamic list: child heights and their sums stay below 2^16 (uint16 arithmetic not modelled); cursors passed to SetCursor are below 2^63; the Builder has fewer than 2^63 items and is prefix-closed (nil from the first missing index on)",
+        "Dynamic list: cursors passed to SetCursor are below 2^63; the Builder has fewer than 2^63 items and is prefix-closed (nil from the first missing index on)",
         "Draw contexts are bounded (Max.Width, Max.Height != 65535), as Dynamic.Draw itself requires",
     ],
     "technique": "Lean 4 proof over an executable model; extractor + differential correspondence harness",
